@@ -967,6 +967,9 @@ m("c02-delete-account-early-return", "C02", "x/evm/keeper/statedb.go",
 m("c16-update-params-unchecked-precompiles", "C16", "x/evm/keeper/msg_server.go",
   "\t\tif !k.IsAvailablePrecompile(address) {\n\t\t\treturn nil, errorsmod.Wrapf(types.ErrInactivePrecompile", "\t\tif !k.IsAvailablePrecompile(address) && false {\n\t\t\treturn nil, errorsmod.Wrapf(types.ErrInactivePrecompile",
   "UpdateParams#active-precompiles-are-available", "the availability test decides nothing")
+m("c07-feecap-truncation", "C07", "app/ante/evm/fee_checker.go",
+  "\t\tif effectivePrice.Equal(feeCap) {\n\t\t\teffectiveAmount = fee\n\t\t}\n", "",
+  "declared-fee-at-the-cap", "the checker charges cap x gas again")
 for prop in ("C16", "C07"):
     m("c%s-gas-meter-without-precharge" % prop[1:], prop, "precompiles/common/precompile.go",
       "sdk.NewGasMeter(initialGas + contract.Gas)", "sdk.NewGasMeter(contract.Gas)",
